@@ -1092,14 +1092,14 @@ const keyRule = "keys: all ten integer types (type extremes, 0, +-1, multiples o
 var PartIndex = &vkit.Part[CaseIndex]{
 	Property: Property, Name: "index",
 	Rule:  "rapid: shard count x 2-10 " + keyRule + ". Oracle: SimpleIndex / XHashIndex in [0,shards), equal on a second independently built instance (NewReMap() for 73) and on a repeated call after all other lookups; non-negative integers and Hit() values land on value mod shards; XHashIndex(k) is the part of XXHash(k) in the documented partition (computed arithmetically). Non-trivial: shards >= 2 and keys of >= 2 dynamic types; distinct = distinct case JSON",
-	Quick: 8000, Thorough: 30000,
+	Quick: 24000, Thorough: 30000,
 	Gen: GenIndex, Exec: ExecIndex,
 }
 
 var PartSearch = &vkit.Part[CaseSearch]{
 	Property: Property, Name: "search",
 	Rule:  "rapid: shard count (as above) x 3-16 raw hashes x from {0,1,2,MaxUint64(-1),2^63(-1)}, boundary_i+d for d in -2..2 with i first / last / last but one / any (constructed from the documented y=MaxUint64/shards, wrapping at the top), y*shards+d (where the last boundary would be if not forced), inside a drawn part, uniform. Oracle: SearchIndex(0)=0, SearchIndex(MaxUint64)=shards-1, every result in range, equal across instances, equal to the arithmetic 'first boundary >= x' ((x-1)/y capped), non-decreasing over the sorted inputs. Non-trivial: shards >= 2 and some x within 1 of a boundary separating two parts; distinct = distinct case JSON",
-	Quick: 6000, Thorough: 25000,
+	Quick: 18000, Thorough: 25000,
 	Gen: GenSearch, Exec: ExecSearch,
 }
 
@@ -1115,20 +1115,20 @@ const histRule = "rapid: shard count (as above, but 65521 at 5% and {509,1000,10
 var PartMap = &vkit.Part[CaseHist]{
 	Property: Property, Name: "widemap",
 	Rule:  "cache.NewWideMap / NewWideXHashMap vs cache.NewSingleMap. " + histRule,
-	Quick: 1500, Thorough: 6000,
+	Quick: 4500, Thorough: 6000,
 	Gen: GenHistMap, Exec: ExecHistMap,
 }
 
 var PartLRU = &vkit.Part[CaseHist]{
 	Property: Property, Name: "widelru",
 	Rule:  "cache.NeWideLRUCache / NewWideXHashLRUCache vs cache.NewSingleLRUCache. " + histRule,
-	Quick: 1200, Thorough: 5000,
+	Quick: 3600, Thorough: 5000,
 	Gen: GenHistLRU, Exec: ExecHistLRU,
 }
 
 var PartTiny = &vkit.Part[CaseHist]{
 	Property: Property, Name: "tinywidelru",
 	Rule:  "cache/tiny.NeWideLRU / NewWideXHashLRU vs tiny.NewSingleLRUCache. " + histRule,
-	Quick: 1200, Thorough: 5000,
+	Quick: 3600, Thorough: 5000,
 	Gen: GenHistLRU, Exec: ExecHistTiny,
 }
